@@ -40,11 +40,14 @@ def check(run, prog, tier):
     run.rule("C06-R3", "spectral densities are odd in frequency (parity types)", minimum=5)
     run.rule("C06-R4", "thermal factor is 1 + coth(w/2kT); zero-frequency limit", minimum=4)
     run.rule("C06-R5", "tensor population block uses the same operators and frequency as the rate kernel", minimum=3)
+    run.rule("C06-R6", "rate and tensor kernels work on their own copies of the system-bath operators "
+                       "(effect analysis with field aliases)", minimum=3)
     rule_R1(run, prog)
     rule_R2(run, prog)
     rule_R3(run, prog)
     rule_R4(run, prog)
     rule_R5(run, prog)
+    rule_R6(run, prog)
 
 
 def rule_R1(run, prog):
@@ -440,6 +443,35 @@ def _temperature_flow(run, rid, prog):
             run.obligation(rid, "SpectralDensity." + mname, bool(tf.appended) and not badp, key="recorded-temperature",
                            message="the parameters handed to the new CorrelationFunction must record the requested "
                                    "temperature (%s)" % badp, loc=f.loc(), sample={"appended": len(tf.appended)})
+
+
+def rule_R6(run, prog):
+    """The golden-rule clause is about the coefficients c_na of the eigenstates on the sites: the kernels
+    obtain them by transforming the site projectors sbi.KK to the eigenbasis.  If that transformation is
+    done in place on the array held by the shared SystemBathInteraction, every later rate matrix or
+    tensor built from the same object starts from already transformed operators."""
+    from ..effects import Effects
+    from . import c15
+    rid = "C06-R6"
+    E = Effects(prog, depth=3)
+    targets = [("quantarhei.qm.liouvillespace.rates.redfieldrates.RedfieldRateMatrix", ("_set_rates",)),
+               ("quantarhei.qm.liouvillespace.rates.tdredfieldrates.TDRedfieldRateMatrix", ("_set_rates",)),
+               ("quantarhei.qm.liouvillespace.rates.foersterrates.FoersterRateMatrix", ("_set_rates", "_reference_implementation")),
+               ("quantarhei.qm.liouvillespace.redfieldtensor.RedfieldRelaxationTensor", ("_implementation",))]
+    for q, names in targets:
+        cls = prog.cls(q)
+        hold = c15._input_holders(prog, cls) | {"Hamiltonian", "SystemBathInteraction"}
+        for nme in names:
+            f = cls.methods.get(nme)
+            if f is None:
+                continue
+            params = [a.arg for a in f.node.args.args if a.arg != "self"]
+            roots = [(x,) for x in params] + [("self", h) for h in sorted(hold)]
+            found = [x for x in c15._scan(prog, E, f, roots) if x[1] == "store"]
+            run.obligation(rid, f.short, not found, key="inputs-intact",
+                           message="%s writes into its inputs: %s" % (f.short, "; ".join("%s <- %s" % (r, t) for r, _, t, _ in found[:3])),
+                           loc=f.loc(found[0][3]) if found else f.loc(),
+                           sample={"function": f.short, "inputs": [".".join(r) for r in roots][:6]})
 
 
 def rule_R4(run, prog):
